@@ -9,7 +9,7 @@ git -C /repo worktree remove --force $WT 2>/dev/null
 git -C /repo worktree add -q --detach $WT HEAD || exit 1
 HEAD=$(git -C /repo log --format=%h -1)
 for P in $(ls $SRC | grep '^C'); do
- for M in m1 m2 m3 m4 m5 m6; do
+ for M in ${MS:-m1 m2 m3 m4 m5 m6 m7 m8}; do
   D=$SRC/$P/$M
   [ -f $D/patch.diff ] || continue
   ID=$P-$M
